@@ -146,8 +146,10 @@ def _rmw_sites(fn):
 
 def _fresh_before(fn, attr, site):
     """is self.<attr> assigned unconditionally (top-level statement of fn) before `site`?"""
-    for s in fn.node.body:
-        if s.lineno >= site.lineno:
+    pos = [i for i, s in enumerate(fn.node.body) if s is site]
+    for i, s in enumerate(fn.node.body):
+        # statement order, not line numbers: inlined helper bodies keep the line numbers of the helper
+        if (pos and i >= pos[0]) or (not pos and s.lineno >= site.lineno):
             break
         if isinstance(s, ast.Assign):
             for t in s.targets:
